@@ -257,6 +257,31 @@ fn handle_hash(req: &Value) -> Value {
     }
 }
 
+/// One run of the build script (kiki/build.rs) on a grammar text and the parser file next to it
+/// (`parser` = null: the file does not exist): the same three library calls in the same order.
+fn handle_fresh(req: &Value) -> Value {
+    let gram = req["gram"].as_str().unwrap_or("");
+    let parser: Option<&str> = req["parser"].as_str();
+    let r = guarded(|| {
+        let file_hash = sha256::digest(gram);
+        if let Some(rs_contents) = parser {
+            let rs_contents = kiki::RustSrcRef(rs_contents);
+            if kiki::get_grammar_hash(rs_contents) == Some(&file_hash) {
+                // The .kiki file has not changed.
+                return ("fresh", None);
+            }
+        }
+        match kiki::generate(gram) {
+            Ok(s) => ("regenerated", Some(s.0)),
+            Err(_) => ("failed", None),
+        }
+    });
+    match r {
+        Ok((outcome, written)) => json!({"id": req["id"], "outcome": outcome, "written": written}),
+        Err((msg, loc)) => json!({"id": req["id"], "outcome": "panic", "panic": {"msg": msg, "loc": loc}}),
+    }
+}
+
 fn handle_tokenize(req: &Value) -> Value {
     let src = req["src"].as_str().unwrap_or("");
     let want_ev = wants(req, "lexev");
@@ -285,6 +310,7 @@ fn dispatch(cmd: &str, req: &Value) -> Value {
     match cmd {
         "gen" => handle_gen(req),
         "hash" => handle_hash(req),
+        "fresh" => handle_fresh(req),
         "tokenize" => handle_tokenize(req),
         "oset" => oset::handle(req),
         _ => json!({"id": req["id"], "tool_error": format!("unknown command {cmd}")}),
@@ -374,12 +400,13 @@ fn main() {
     match cmd {
         "gen" => serve("gen", Duration::from_secs(timeout)),
         "hash" => serve("hash", Duration::from_secs(timeout)),
+        "fresh" => serve("fresh", Duration::from_secs(timeout)),
         "tokenize" => serve("tokenize", Duration::from_secs(timeout)),
         "oset" => serve("oset", Duration::from_secs(timeout)),
         "total" => total::main(&args[2..]),
         "child-gen" => total::child_gen(),
         _ => {
-            eprintln!("usage: kv gen|hash|tokenize|oset|total|child-gen");
+            eprintln!("usage: kv gen|hash|fresh|tokenize|oset|total|child-gen");
             std::process::exit(2);
         }
     }
